@@ -55,6 +55,10 @@ func (t *Tape) Choose(n int) int {
 	if t.replay {
 		if t.pos < len(t.in) {
 			v = t.in[t.pos] % uint64(n)
+		} else if t.pos > len(t.in)+2_000_000 {
+			// a generator that loops until the tape gives a particular value never
+			// terminates on an exhausted (all-zero) tape
+			panic("tape: runaway replay (more than 2M draws past the end of the stored vector)")
 		}
 		t.pos++
 	} else {
